@@ -148,3 +148,26 @@ def h_meta_raw_text(name: int, tx: int, mask: int, extra: int) -> bool:
     """metadata nodes next to the text of a raw-text element (script/style) or an ordinary one leave the markup unchanged
     (in particular they do not switch the text between escaped and verbatim)"""
     return api.concrete(_raw_body, api.conc(name, 0, 3), api.conc(tx, 0, 3), pick(mask, _MASKS), api.conc(extra, 0, 1))
+
+
+@harness("C07", pre=lambda B, nm, mk, t: 0 <= nm <= 3 and 0 <= mk <= 4 and len(t) <= B["L"], bounds={"quick": {"L": 2}, "thorough": {"L": 3}},
+         shard={"nm": range(4), "mk": range(5)},
+         sym=["t: text child, str over all code points, len <= L"],
+         sel=["nm: block / inline / script / void-named parent", "mk: where the metadata goes (before, after, both sides, two in a row, between two texts)"],
+         targets=["htmltools._core.Tag.get_html_string"], timeout={"quick": 200, "thorough": 1200})
+def h_meta_text_sym(nm: int, mk: int, t: str) -> bool:
+    """with arbitrary text: metadata around a text child changes nothing (one-line form, escaping or not, void-named parents)"""
+    name = pick(nm, ["div", "span", "script", "br"])
+    ws = nm == 0
+    m1, m2 = MetadataNode(), HTMLDependency("x", "1.0")
+    if mk == 0:
+        kids, base = [m1, t], [t]
+    elif mk == 1:
+        kids, base = [t, m2], [t]
+    elif mk == 2:
+        kids, base = [m1, t, m2], [t]
+    elif mk == 3:
+        kids, base = [t, m1, m2, MetadataNode()], [t]
+    else:
+        kids, base = [t, m1, "<&>", m2], [t, "<&>"]
+    return Tag(name, *kids, _add_ws=ws).get_html_string() == Tag(name, *base, _add_ws=ws).get_html_string()
